@@ -1,0 +1,48 @@
+//go:build verif
+
+// Contracts for the deductive checks under /verif (comment-only; no code).
+
+package namesys
+
+// ---- TTL arithmetic -----------------------------------------------------------
+// "the smallest non-zero TTL": the smaller positive one, the positive one, or 0
+//@ spec smallestPositive(a time.Duration, b time.Duration) time.Duration = ite(a > 0 && b > 0, ite(a < b, a, b), ite(a > 0, a, ite(b > 0, b, 0)))
+//@ func minNonZeroTTL
+//@   prop C29
+//@   arith int
+//@   ensures[smallest_positive] result == smallestPositive(a, b)
+
+//@ macro ttlCap(ns) = ite(ns.maxCacheTTL != nil, deref(ns.maxCacheTTL), 0)
+//@ func (*namesys).capTTL
+//@   prop C29
+//@   arith int
+//@   requires ns != nil
+//@   ensures[capped] ns.maxCacheTTL != nil && ttlCap(ns) > 0 && ttl > ttlCap(ns) ==> result == ttlCap(ns)
+//@   ensures[otherwise_same] !(ns.maxCacheTTL != nil && ttlCap(ns) > 0 && ttl > ttlCap(ns)) ==> result == ttl
+
+// ---- sequence numbers -----------------------------------------------------------
+//@ func (*IPNSPublisher).GetPublished
+//@   assumed
+//@ func ProcessPublishOptions
+//@   assumed
+//@ func IpnsDsKey
+//@   assumed
+//@ func iface github.com/ipfs/boxo/path.Path.String
+//@   pure
+//@ func iface github.com/ipfs/go-datastore.Datastore.Put
+//@ func iface github.com/ipfs/go-datastore.Datastore.Sync
+
+// the sequence number handed to ipns.NewRecord, relative to the current record's
+//@ func (*IPNSPublisher).updateRecord
+//@   prop C29
+//@   arith bv
+//@   requires p != nil
+//@   modifies all
+//@   site[first_default_zero] call:NewRecord : res("call:GetPublished#0") == nil && res("call:ProcessPublishOptions#0").Sequence == nil ==> arg2 == 0
+//@   site[first_explicit] call:NewRecord : res("call:GetPublished#0") == nil && res("call:ProcessPublishOptions#0").Sequence != nil ==> arg2 == deref(res("call:ProcessPublishOptions#0").Sequence) && arg2 != 0
+//@   site[explicit_greater] call:NewRecord : res("call:GetPublished#0") != nil && res("call:ProcessPublishOptions#0").Sequence != nil ==> arg2 == deref(res("call:ProcessPublishOptions#0").Sequence) && arg2 > res("call:Sequence#0")
+//@   site[never_decreases] call:NewRecord : res("call:GetPublished#0") != nil ==> arg2 >= res("call:Sequence#0")
+//@   site[increases_on_change] call:NewRecord : res("call:GetPublished#0") != nil && res("call:ProcessPublishOptions#0").Sequence == nil && res("invoke:String#0") != res("invoke:String#1") ==> arg2 > res("call:Sequence#0")
+//@   site[same_value_same_seq] call:NewRecord : res("call:GetPublished#0") != nil && res("call:ProcessPublishOptions#0").Sequence == nil && res("invoke:String#0") == res("invoke:String#1") ==> arg2 == res("call:Sequence#0")
+//@   site[value_compared] invoke:String#0 : arg0 == value
+//@   site[record_value] call:NewRecord : arg1 == value
